@@ -239,10 +239,15 @@ fn check_case(ctx: &mut Ctx, rng: &mut Rng, case: &Case, perms: usize, case_seed
                         xs.insert(b, e);
                     }
                     3 => {}
+                    // orders that look sorted under another key: (satellite, band, attribute) as in RINEX observation
+                    // codes, (satellite, attribute, band), signal-major
+                    6 => xs.sort_by_key(|x| (row_sat(x), row_sig(x))),
+                    7 => xs.sort_by_key(|x| (row_sat(x), row_sig(x).map(|s| (s.1, s.0)))),
+                    8 => xs.sort_by_key(|x| (row_sig(x), row_sat(x))),
                     _ => rng.shuffle(xs),
                 }
             }
-            let (ms, mc) = ((pi * 7 + 1) % 6, (pi * 5 + 2) % 6);
+            let (ms, mc) = ((pi * 7 + 1) % 6, if pi % 4 == 3 { 6 + (pi / 4) % 3 } else { (pi * 5 + 2) % 6 });
             if let Some(xs) = find_field_mut(&mut pv, "satellite_data").and_then(seq_mut) {
                 almost(xs, rng, ms);
             }
